@@ -73,6 +73,10 @@ def run(prop, tier):
                 jobs.append((len(jobs), "remove_empty_md", p, {}))
             else:
                 jobs.append((len(jobs), plan["pass"], p, {}))
+                # every 4th program also as a DAG: equal sub-terms are one shared ast object (what func_adl
+                # itself produces when a substituted argument is used twice)
+                if len(jobs) % 4 == 0:
+                    jobs.append((len(jobs), plan["pass"], p, {"shared": True}))
     recs = replay_passes.run_many(jobs)
     vrecs = []
     for r in recs:
